@@ -14,17 +14,26 @@ from mc import world
 X, Y = b"x\n", b"y\n"
 
 
-def _mk(a, b, d, k):
-    """a,b: None | (where, name, content, exec) with where in ('root','D'); d: None|'d'|'e';
-    k: None|'file'|'directory'.  Returns the tree or None when invalid."""
+def _mk(a, b, d, k, sub=False):
+    """a,b: None | (where, name, content, exec) with where in ('root','D','S'); d: None|'d'|'e';
+    k: None|'file'|'directory'; sub: directory id S named 's' inside D.  Returns the tree or
+    None when invalid."""
     t = {}
     if d is not None:
         t[d] = world.D(b"D-id")
+    if sub:
+        if d is None:
+            return None
+        t[d + "/s"] = world.D(b"S-id")
     for fid, v in ((b"A-id", a), (b"B-id", b)):
         if v is None:
             continue
         where, name, content, ex = v
-        if where == "D":
+        if where == "S":
+            if not sub:
+                return None
+            p = d + "/s/" + name
+        elif where == "D":
             if d is None:
                 return None
             p = d + "/" + name
@@ -40,15 +49,16 @@ def _mk(a, b, d, k):
     return t
 
 
-A_SMALL = (None, ("root", "a", X, False), ("root", "a", Y, True), ("root", "b", X, False), ("D", "a", X, False))
-A_FULL = A_SMALL + (("root", "a", Y, False), ("root", "a", X, True), ("D", "a", Y, False))
+A_SMALL = (None, ("root", "a", X, False), ("root", "a", Y, True), ("root", "a", X, True), ("root", "b", X, False),
+           ("D", "a", X, False))
+A_FULL = A_SMALL + (("root", "a", Y, False), ("D", "a", Y, False))
 B_SMALL = (None, ("root", "b", Y, False), ("root", "a", Y, False))
 B_FULL = B_SMALL + (("D", "b", Y, False), ("D", "a", Y, False))
 D_ALL = (None, "d", "e")
 
 
 def space(level):
-    """level 0: 33+ trees (quick); level 1: the full product (thorough)."""
+    """level 0: 55 trees (quick); level 1: the larger products (thorough)."""
     out = []
     seen = set()
 
@@ -64,9 +74,16 @@ def space(level):
             add(_mk(a, b, d, None))
         for a, d, k in itertools.product((None, ("root", "a", X, False)), (None, "d"), ("file", "directory")):
             add(_mk(a, None, d, k))
+        for a, d in itertools.product((None, ("root", "a", X, False), ("D", "a", X, False), ("S", "a", X, False)), ("d", "e")):
+            add(_mk(a, None, d, None, sub=True))
     else:
-        for a, b, d, k in itertools.product(A_FULL, B_FULL, D_ALL, (None, "file", "directory")):
-            add(_mk(a, b, d, k))
+        for a, b, d in itertools.product(A_FULL, B_FULL, D_ALL):
+            add(_mk(a, b, d, None))
+        for a, d, k in itertools.product(A_FULL, D_ALL, ("file", "directory")):
+            add(_mk(a, None, d, k))
+        for a, b, d in itertools.product(A_SMALL + (("S", "a", X, False), ("S", "a", Y, False)),
+                                         (None, ("root", "b", Y, False)), ("d", "e")):
+            add(_mk(a, b, d, None, sub=True))
     return out
 
 
@@ -135,11 +152,19 @@ def version(tree, spec, with_ids):
         tree.add(ps, [spec[p].kind for p in ps])
 
 
+def is_git(tree):
+    return type(tree).__name__.startswith("Git")
+
+
 def unversion_all(tree):
     with tree.lock_tree_write():
-        tops = sorted(p for p in tree.all_versioned_paths() if p and "/" not in p)
-        if tops:
-            tree.unversion(tops)
+        # every path is named explicitly (DirStateWorkingTree.unversion mishandles nested
+        # sub-directories of an unversioned directory, see the C09 finding)
+        paths = sorted((p for p in tree.all_versioned_paths() if p), key=lambda p: -p.count("/"))
+        if is_git(tree):
+            paths = [p for p in paths if "/" not in p]
+        if paths:
+            tree.unversion(paths)
 
 
 def viol(acc, sig, detail):
